@@ -4,7 +4,9 @@ package main
 // factory from real settings, driven synchronously.  Ops (see lean/Qfx/Drv/Sess.lean):
 //   cfg k=v…           build the session (role, BeginString, chunk, reset flags, persist, latency, hb, initial counters)
 //   connect | in f… | in garbage | arrive f… | pop | timeout hb|peer|logon|logout | disc | stop
-//   send f… | flush | stime in|out|new
+//   send f… | flush | stime in|out|new | rtime n   (CheckResetTime with the clock at rtimeBase + n seconds)
+// cfg lsp=1 sets EnableLastMsgSeqNumProcessed (tag 369 on every outbound header).
+// cfg rst=n builds the session with ResetSeqTime = n seconds of the day (UTC, HH:MM:SS); rst=- leaves it unset.
 // Inbound messages are `tag=value` lists in wire order (without 9 and 10); `@n` is a UTCTimestamp now+n seconds.
 // Observation: status | ordered observations… ; ctr S T ; st State [stash k,… cur fin] ; q n ; ib n ; stopped b
 import (
@@ -131,6 +133,16 @@ func (s *sessImpl) build(kv map[string]string) string {
 	}
 	if bsi == 5 {
 		st.Set(config.DefaultApplVerID, "9")
+	}
+	if v, ok := kv["rst"]; ok && v != "-" {
+		n, err := strconv.Atoi(v)
+		if err != nil || n < 0 || n >= 86400 {
+			panic("bad op: rst out of range")
+		}
+		st.Set(config.ResetSeqTime, fmt.Sprintf("%02d:%02d:%02d", n/3600, n/60%60, n%60))
+	}
+	if kv["lsp"] == "1" {
+		st.Set(config.EnableLastMsgSeqNumProcessed, "Y")
 	}
 	if kv["sched"] == "1" {
 		now := time.Now().UTC()
@@ -358,10 +370,23 @@ func (s *sessImpl) exec(op string) string {
 				s.v.CheckSessionTime(now.Add(24 * time.Hour))
 			}
 			return s.observe("ok")
+		case "rtime":
+			// the harness owns the clock of CheckResetTime: n seconds after a fixed UTC midnight
+			n, err := strconv.Atoi(w[1])
+			if err != nil || n < 0 || n > rtimeMax || len(w) != 2 {
+				panic("bad op " + op)
+			}
+			s.v.CheckResetTime(rtimeBase.Add(time.Duration(n) * time.Second))
+			return s.observe("ok")
 		}
 		panic("bad op " + op)
 	})
 }
+
+// origin of the `rtime` clock (a midnight in UTC) and the largest offset accepted
+var rtimeBase = time.Date(2024, time.March, 4, 0, 0, 0, 0, time.UTC)
+
+const rtimeMax = 1000000000
 
 // ---------------------------------------------------------------- generator
 
@@ -379,6 +404,71 @@ type sessGen struct {
 	ib     int
 	payload int
 	sched  bool
+	rst    int // ResetSeqTime as seconds of the day, -1 = not configured
+	clock  int // the clock handed to CheckResetTime last (seconds after rtimeBase)
+}
+
+func pickInt(r *rng, xs []int) int { return xs[r.intn(len(xs))] }
+
+// the first reset instant strictly after clock
+func (g *sessGen) nextResetInstant() int {
+	t := g.clock/86400*86400 + g.rst
+	if t <= g.clock {
+		t += 86400
+	}
+	return t
+}
+
+// one CheckResetTime call: steered across / onto / around the reset instant of the day, sometimes far away, sometimes
+// with the clock going backwards; when the engine answered with its reset Logon, continue as a peer might
+func (g *sessGen) resetTick() {
+	r := g.r
+	n := g.clock
+	switch x := r.intn(12); {
+	case x < 5 && g.rst >= 0:
+		n = g.nextResetInstant() + pickInt(r, []int{0, 0, 0, 1, 2, 30, 3600}) // onto or over the boundary
+	case x < 6 && g.rst >= 0:
+		n = g.nextResetInstant() - 1 - r.intn(20) // just before it
+	case x < 9:
+		n = g.clock + 1 + r.intn(40)
+	case x < 10:
+		n = g.clock - r.intn(200) // the clock stepped back
+		if n < 0 {
+			n = 0
+		}
+	case x < 11:
+		n = g.clock + 86400*(1+r.intn(3)) + r.intn(86400) // more than a day later
+	default:
+		n = g.clock
+	}
+	g.clock = n
+	res := g.run("rtime " + strconv.Itoa(n))
+	if !strings.Contains(res, "w 35=A") {
+		return
+	}
+	g.o.kind("rtime.reset-logon-sent")
+	switch x := r.intn(10); {
+	case x < 4: // the peer's echo
+		h := g.goodHeader(1)
+		g.peerSeq = 2
+		g.run("in " + strings.Join(append(g.header("A", h), g.echoBody("141=Y")...), " "))
+	case x < 6: // a Logon that is not an echo
+		h := g.goodHeader(pickInt(r, []int{1, 1, g.peerSeq}))
+		g.run("in " + strings.Join(append(g.header("A", h), g.echoBody(r.pick([]string{"", "", "141=N"}))...), " "))
+	case x < 8: // application traffic, numbered as before the reset or from 1
+		g.run("in " + g.inbound("D", g.goodHeader(pickInt(r, []int{1, g.peerSeq, g.peerSeq + 1}))))
+	}
+}
+
+func (g *sessGen) echoBody(flag string) []string {
+	f := []string{"98=0", "108=30"}
+	if flag != "" {
+		f = append(f, flag)
+	}
+	if g.bsi == 5 {
+		f = append(f, "1137=9")
+	}
+	return f
 }
 
 func (g *sessGen) run(op string) string {
@@ -741,6 +831,18 @@ func genSess(r *rng, tier string, idx int, o *out, do func(string) string) strin
 	cfg := fmt.Sprintf("cfg init=%s bs=%d chunk=%d rol=%s rolo=%s rod=%s refresh=%s persist=%s skiplat=%s hb=%s hbo=%s s0=%d t0=%d ltp=%s sched=%s",
 		map[bool]string{true: "1", false: "0"}[g.init], g.bsi, []int{0, 0, 0, 1, 2, 3, 5}[r.intn(7)], b(1, 6), b(1, 6), b(1, 6), b(1, 8), persist, b(1, 5),
 		r.pick([]string{"30", "30", "10", "1", "45"}), b(1, 4), s0, t0, ltp, sched)
+	// ResetSeqTime (a quarter of the cases): seconds of the day, UTC; the CheckResetTime clock starts a little before it
+	g.rst = -1
+	rst := "-"
+	if r.chance(1, 4) {
+		g.rst = pickInt(r, []int{0, 1, 3600, 43200, 86399, r.intn(86400), r.intn(86400)})
+		rst = strconv.Itoa(g.rst)
+	}
+	cfg += " rst=" + rst + " lsp=" + b(1, 4)
+	g.clock = 86400*(1+r.intn(4)) + r.intn(86400)
+	if g.rst >= 0 && r.chance(3, 4) {
+		g.clock = g.nextResetInstant() - 1 - r.intn(300)
+	}
 	g.run(cfg)
 	o.nontrivial(cfg)
 	// optional sends before connecting
@@ -751,11 +853,24 @@ func genSess(r *rng, tier string, idx int, o *out, do func(string) string) strin
 	if tier == "thorough" {
 		nEvents = 60 + r.intn(160)
 	}
+	if g.rst >= 0 && r.chance(1, 3) {
+		g.resetTick() // first call, before any connection
+	}
 	g.run("connect")
 	g.peerSeq = g.target
+	if g.rst >= 0 && r.chance(1, 8) {
+		g.resetTick() // connected, Logon not yet received
+	}
 	g.afterConnect()
+	if g.rst >= 0 && r.chance(1, 2) {
+		g.run("rtime " + strconv.Itoa(g.clock)) // the tick that records the clock while logged on
+	}
 	for i := 0; i < nEvents; i++ {
 		connected := !(g.state == "Latent" || g.state == "NotSessionTime")
+		if (g.rst >= 0 && r.chance(1, 10)) || (g.rst < 0 && r.chance(1, 150)) {
+			g.resetTick()
+			continue
+		}
 		if !connected {
 			switch x := r.intn(10); {
 			case x < 6:
